@@ -278,18 +278,24 @@ def bridge_tie(ctx, sources, limit):
     if len(vals) != len(cases):
         raise RuntimeError(f"bridge evaluation: {len(vals)} values for {len(cases)} cases")
     shown = 0
-    for (v, _), r, (ok, cf, blocks) in zip(cases, recs, vals):
+    for (v, _), r, (ok, (cf, wfb), blocks) in zip(cases, recs, vals):
         inst = next((i for i in r["instances"] if i["func"] == "f" and "blocks" in i), None)
         if inst is None or not ok:
             if (inst is None) != (not ok):
                 st["differences"] += 1
                 if shown < 3:
                     shown += 1
-                    ctx.report(f"bridge:{v}", "counterexample", "ecfg_of (C03 build) vs real builder",
+                    ctx.report(f"bridge:{v}", "correspondence", "ecfg_of (C03 build) vs real builder",
                                {"program": v, "expected": "both build or both fail", "observed": {"model_builds": ok, "real_instance": inst is not None},
-                                "replay": replay_cmd(v)})
+                                "replay": replay_cmd(v)}, found_input=False)
             continue
         st["in_cf_fragment"] += int(bool(cf))
+        st["wf_ecfg_of_model_graph"] = st.get("wf_ecfg_of_model_graph", 0) + int(bool(wfb))
+        if not wfb:
+            st["differences"] += 1
+            ctx.report(f"bridge-wf:{v}", "correspondence", "wf_ecfg (ecfg_of (build p))",
+                       {"program": v, "why": "hypothesis of syntactic_undef_rejected fails on the model's own graph",
+                        "replay": replay_cmd(v)}, found_input=False)
         real = []
         for b in inst["blocks"]:
             evs = []
@@ -299,21 +305,28 @@ def bridge_tie(ctx, sources, limit):
                     evs.append([0, num(e[1]), 0])
                 elif e[2][0] == "copy":
                     evs.append([2, num(e[1]), num(e[2][1])])
+                elif str(e[2][1]).startswith("glob:"):
+                    # `x = y` with y never assigned in the function: the harness types it as the
+                    # global y, ecfg_of keeps the syntactic copy; same reads, same assignment
+                    evs.append([2, num(e[1]), num(str(e[2][1])[5:])])
                 else:
                     evs.append([1, num(e[1]), 0])
-            real.append([b["succ"], b["dsucc"], evs])
-        model = [[list(su), list(ds), [list(t) for t in evs]] for (su, ds, evs) in blocks]
+            real.append([sorted(b["succ"]), sorted(b["dsucc"]), evs])
+        # successor ORDER (which edge is the true branch) is C03's business; C08's theorems do not depend on it
+        model = [[sorted(su), sorted(ds), [list(t) for t in evs]] for (su, ds, evs) in blocks]
         st["blocks_compared"] += len(real)
         if real != model:
             st["differences"] += 1
             if shown < 3:
                 shown += 1
                 bad = next((i for i, (a, b) in enumerate(zip(real, model)) if a != b), None)
-                ctx.report(f"bridge:{v}", "counterexample", "ecfg_of (C03 build) vs real builder",
+                ctx.report(f"bridge:{v}", "correspondence", "ecfg_of (C03 build) vs real builder",
                            {"program": v, "first_differing_block": bad,
+                            "why": "the event CFG of the real builder differs from C03's builder model read through ecfg_of: the "
+                                   "syntactic-path bridge no longer speaks about this CFG (the verdict comparison above decides whether C08 itself fails)",
                             "expected": model[bad] if bad is not None and bad < len(model) else len(model),
                             "observed": real[bad] if bad is not None and bad < len(real) else len(real),
-                            "replay": replay_cmd(v)})
+                            "replay": replay_cmd(v)}, found_input=False)
     return st
 
 
@@ -357,7 +370,7 @@ def run(ctx) -> int:
                    {"failed": info["failed"], "log": info["log"][-3000:]}, found_input=False)
 
     quick = ctx.quick
-    n_plain, n_const = (240, 130) if quick else (900, 500)
+    n_plain, n_const = (240, 130) if quick else (2600, 1400)
     progs = []
     for cse in json.loads((HERE / "corpus" / "cases.json").read_text()):
         progs.append({"id": "corpus/" + cse["id"], "src": cse["src"], "group": "corpus",
@@ -497,7 +510,7 @@ def run(ctx) -> int:
                    {"program": dead_dev[0], "expected": "accepted", "observed": dead_dev[1], "replay": replay_cmd(dead_dev[0])})
 
     T["compare_and_spec"] = round(time.time() - t0, 1); t0 = time.time()
-    bridge = bridge_tie(ctx, [p["src"] for p in progs if p["group"] == "plain"], 70 if quick else 400)
+    bridge = bridge_tie(ctx, [p["src"] for p in progs if p["group"] == "plain"], 70 if quick else 900)
     T["bridge_tie"] = round(time.time() - t0, 1)
     gen_sources = [p["src"] for p in progs if p["group"] != "corpus"]
     hist = histo.histogram(gen_sources)
